@@ -90,6 +90,8 @@ def cases(draw, tier='quick'):
             spec['route'] = 'pnc'
         if spec['route'] == 'pnc':
             draw(C.input_orders(spec))
+            if not spec.get('mask'):
+                draw(C.input_layouts(spec))
         if fmt == 'wind' and spec['lstagger'] is None:
             # the writer documents/uses LSTAGGER: files built from arrays
             # carry one
@@ -509,6 +511,8 @@ def check_case(spec):
                         *['slice:' + d for d in sorted(spec['slice'])])
         if spec.get('vorder'):
             r.label('creation-order-permuted')
+        if spec.get('memlayout'):
+            r.label('memlayout:' + spec['memlayout'])
         if spec.get('mask'):
             r.label('masked-input:' + spec['mask']['kind'])
         check_w2r(r, spec, m)
